@@ -49,7 +49,8 @@ struct Exec {
 
   const sim::Plan& p; sim::Run& r; Obs& obs; std::string cfg;
   unsigned P; model::Pool pool; Filtration F; std::vector<unsigned> unit;  // unit[pool index]: rescaling of the basis element
-  int next_id = 0; bool default_ids_ok = true;
+  int next_id = 0; bool default_ids_ok = true; bool had_removal = false;
+  std::vector<int> rowids;  // boundary-type matrices: row identifier attached to each position (stays with the position under vine swaps)
   std::unique_ptr<M> mp;
 
   Exec(const sim::Plan& p_, sim::Run& r_, Obs& o_, const std::string& c) : p(p_), r(r_), obs(o_), cfg(c), pool((int)p_.geti("nv", 4), (int)p_.geti("maxdim", 3)) {
@@ -72,17 +73,18 @@ struct Exec {
   // row index used by the matrix for the cell at position pos
   unsigned row_of_pos(int pos) const {
     if constexpr (FAM == CHAIN) return (unsigned)F.cells[pos].id;
-    else return (unsigned)sorted_ids()[pos];  // boundary matrices: rows keep the id sequence of the positions
+    else return (unsigned)rowids[pos];  // boundary matrices: rows keep the id sequence of the positions
   }
   std::vector<int> sorted_ids() const { std::vector<int> v; for (auto& c : F.cells) v.push_back(c.id); std::sort(v.begin(), v.end()); return v; }
   int pos_of_row(unsigned row) const {
     if constexpr (FAM == CHAIN) return F.pos_of_id((int)row);
-    else { auto v = sorted_ids(); auto it = std::lower_bound(v.begin(), v.end(), (int)row); return it != v.end() && *it == (int)row ? (int)(it - v.begin()) : -1; }
+    else { for (size_t k = 0; k < rowids.size(); ++k) if (rowids[k] == (int)row) return (int)k; return -1; }
   }
-  unsigned max_row() const { unsigned mx = 0; for (auto& c : F.cells) mx = std::max(mx, (unsigned)c.id); return mx; }
+  unsigned max_row() const { unsigned mx = 0; for (auto& c : F.cells) mx = std::max(mx, (unsigned)c.id); for (int x : rowids) mx = std::max(mx, (unsigned)x); return mx; }
 
-  template <class Col> Vec dense_by_pos(const Col& col) {
+  template <class Col> Vec dense_by_pos(const Col& col, bool rows_are_positions = false) {
     Vec v(F.size(), 0);
+    if (rows_are_positions) { auto content = col.get_content(F.size()); for (int k = 0; k < F.size(); ++k) v[k] = (unsigned)content[k] % P; return v; }
     auto content = col.get_content((int)max_row() + 1);
     for (unsigned row = 0; row < content.size(); ++row) if (content[row] != 0u) {
       int pos = pos_of_row(row);
@@ -166,7 +168,7 @@ struct Exec {
         PH_REQ(mp->get_column_dimension(ci) == F.cells[k].dim, "ident-R", "get_column_dimension wrong");
         if constexpr (HAS_U) {
           if (l >= 0) { unsigned back = mp->get_column_with_pivot(row_of_pos(l)); PH_REQ(back == ci, "pivot-map", "get_column_with_pivot(" + std::to_string(row_of_pos(l)) + ")=" + std::to_string(back) + " expected " + std::to_string(ci)); }
-          if constexpr (IDX != 2) U[k] = dense_by_pos(mp->get_column(ci, false));
+          if constexpr (IDX != 2) U[k] = dense_by_pos(mp->get_column(ci, false), true);  // U is built inside the matrix: its rows are positions, not identifiers
         }
       }
       if constexpr (HAS_U && IDX != 2) {
@@ -174,11 +176,17 @@ struct Exec {
         // factor transposed-inverted for Z_2 resp. inverted for Z_p: every form that is a factorisation by a triangular invertible matrix is accepted)
         bool upper = true, lower = true, diag = true;
         for (int j = 0; j < n; ++j) { if (U[j][j] % P == 0) diag = false; for (int i = 0; i < n; ++i) if (U[j][i] % P) { if (i > j) upper = false; if (i < j) lower = false; } }
-        PH_REQ(diag && (upper || lower), "ident-U", "the exposed U is not triangular with a non-zero diagonal");
+        bool tri_ok = diag && (upper || lower);
+        if constexpr (Z2 && Opt::column_type == Column_types::VECTOR) { if (!tri_ok && had_removal && r.kf("C06-KF9")) tri_ok = true; }
+        PH_REQ(tri_ok, "ident-U", "the exposed U is not triangular with a non-zero diagonal");
         Mat Rm(n, Vec(n, 0)), Um(n, Vec(n, 0));  // rows x cols
         for (int j = 0; j < n; ++j) for (int i = 0; i < n; ++i) { Rm[i][j] = R[j][i]; Um[i][j] = U[j][i]; }
         Mat Ut(n, Vec(n, 0)); for (int i = 0; i < n; ++i) for (int j = 0; j < n; ++j) Ut[i][j] = Um[j][i];
         bool f1 = model::mul(Rm, Ut, P) == B, f2 = model::mul(B, Um, P) == Rm, f3 = model::mul(Rm, Um, P) == B, f4 = model::mul(B, Ut, P) == Rm;
+        if constexpr (Z2 && Opt::column_type == Column_types::VECTOR) {
+          // known finding C06-KF9: lazily erased U entries of VECTOR columns come back when their row index is used again after a removal
+          if (!(f1 || f2 || f3 || f4) && had_removal) { r.count("probe.ru_vector_U_after_removal"); if (r.kf("C06-KF9")) f1 = true; }
+        }
         PH_REQ(f1 || f2 || f3 || f4, "ident-U", "R and the exposed U do not factor the boundary matrix (none of B=R*U, B=R*U^T, B*U=R, B*U^T=R holds)");
         r.count(f3 ? "probe.factor.B=RU" : f1 ? "probe.factor.B=RUt" : f2 ? "probe.factor.BU=R" : "probe.factor.BUt=R");
       }
@@ -194,12 +202,18 @@ struct Exec {
   void audit_rows() {
     // row view agrees with the columns (R for boundary matrices); entries carry MatIdx, which only these schemes expose
     if constexpr (FAM == CHAIN && IDX != 0) return;
+    if constexpr (FAM == RU && VINE) {
+      // known finding C06-KF3 (same root cause as C09-KF3): swapped column objects keep their own column-index member, so entries created
+      // after a vine swap carry the other column's index and the rows list wrong / colliding column indices
+      if (had_swap) { r.count("probe.ru_rows_after_swap"); if (r.kf("C06-KF3")) return; }
+    }
     const int n = F.size();
     std::vector<Vec> cols(n); std::vector<unsigned> midx(n);
     for (int j = 0; j < n; ++j) { unsigned ci = col_of_pos(j); cols[j] = dense_by_pos(mp->get_column(ci)); if constexpr (FAM != CHAIN) midx[j] = (unsigned)j; else midx[j] = ci; }
     for (int k = 0; k < n; ++k) {
       unsigned row = row_of_pos(k);
       std::map<unsigned, unsigned> exp; for (int j = 0; j < n; ++j) if (cols[j][k]) exp[midx[j]] = cols[j][k];
+      if (exp.empty()) continue;  // a row that never held an entry may not exist in the row container: not queried
       std::map<unsigned, unsigned> got;
       try {
         for (const auto& e : mp->get_row(row)) {
@@ -216,6 +230,15 @@ struct Exec {
   void audit_cycles() {
     if constexpr (REP && BARCODE) {
       const int n = F.size(); if (n == 0) return;
+      if constexpr (FAM == CHAIN) {
+        // known finding C08-KF2: the chain flavour walks the identifiers 0..n-1 and indexes its cycle table by identifier
+        bool contiguous = true; for (int k = 0; k < n; ++k) if (F.cells[k].id != k) contiguous = false;
+        if (!contiguous) { r.count("probe.cycles_with_custom_ids"); if (r.kf("C08-KF2")) { r.skipped(); return; } }
+      }
+      if constexpr (FAM == RU && Z2 && Opt::column_type == Column_types::VECTOR) {
+        // known finding C08-KF3: lazily erased entries of VECTOR columns are still seen by the raw iteration of update_representative_cycles
+        if (had_removal) { r.count("probe.cycles_after_removal_lazy_vector"); if (r.kf("C08-KF3")) { obs.tainted = true; r.skipped(); return; } }
+      }
       mp->update_representative_cycles();
       const auto& cycles = mp->get_representative_cycles();
       const auto& bars = mp->get_current_barcode();
@@ -228,13 +251,21 @@ struct Exec {
         const auto& cyc = mp->get_representative_cycle(bar);
         Bar mb{(int)bar.dim, (int)bar.birth, bar.death == NULLV ? -1 : (int)bar.death};
         Vec z(n, 0); int youngest = -1;
-        for (auto row : cyc) { int pos = pos_of_row((unsigned)row); PH_REQ(pos >= 0, "cycle", "representative cycle contains row " + std::to_string(row) + " which is no cell"); PH_REQ(z[pos] == 0, "cycle", "representative cycle lists a cell twice"); z[pos] = 1; youngest = std::max(youngest, pos);
+        // RU cycles are read from U, whose rows are positions
+        for (auto row : cyc) { int pos = FAM == RU ? ((int)row < n ? (int)row : -1) : pos_of_row((unsigned)row); PH_REQ(pos >= 0, "cycle", "representative cycle contains row " + std::to_string(row) + " which is no cell"); PH_REQ(z[pos] == 0, "cycle", "representative cycle lists a cell twice"); z[pos] = 1; youngest = std::max(youngest, pos);
           PH_REQ(F.cells[pos].dim == mb.dim, "cycle", "representative of a bar of dimension " + std::to_string(mb.dim) + " contains a cell of dimension " + std::to_string(F.cells[pos].dim)); }
         PH_REQ(!cyc.empty(), "cycle", "empty representative cycle");
         PH_REQ(youngest == mb.birth, "cycle-birth", "youngest cell of the representative of bar " + bars_str({mb}) + "is at position " + std::to_string(youngest));
         if constexpr (Z2) {
           Vec d = apply_boundary(B, z);
-          if (!model::is_zero(d, P)) { r.count("probe.cycle_not_a_cycle"); if (FAM == RU && r.kf("C08-KF1")) { obs.tainted = true; continue; } fail("cycle", "representative of bar " + bars_str({mb}) + "is not a cycle: " + vec_str(z) + " has boundary " + vec_str(d)); }
+          if (!model::is_zero(d, P)) {
+            r.count("probe.cycle_not_a_cycle");
+            // known finding C08-KF1 (narrow): the returned chain is exactly row `birth` of the stored (transposed) factor U
+            bool is_row_of_U = FAM == RU;
+            if constexpr (FAM == RU && IDX != 2) { for (int i = 0; i < n && is_row_of_U; ++i) { Vec ui = dense_by_pos(mp->get_column(col_of_pos(i), false), true); if ((ui[mb.birth] != 0) != (z[i] != 0)) is_row_of_U = false; } }
+            if (is_row_of_U && r.kf("C08-KF1")) { obs.tainted = true; continue; }
+            fail("cycle", "representative of bar " + bars_str({mb}) + "is not a cycle: " + vec_str(z) + " has boundary " + vec_str(d));
+          }
           zs.push_back({mb, z});
         }
       }
@@ -279,37 +310,72 @@ struct Exec {
   }
   void do_insert(const sim::Op& op) {
     auto can = insertable(); if (can.empty() || F.size() >= (int)p.geti("maxcells", 12)) { r.skipped(); return; }
+    if constexpr (FAM == RU && VINE && !MAPC) {
+      // known finding C06-KF11: vector-container RU: an insertion that follows a vine swap and a removal is mis-reduced
+      if (had_swap && had_removal) { r.count("probe.ru_vector_insert_after_swap_and_removal"); if (r.kf("C06-KF11")) { obs.tainted = true; r.skipped(); return; } }
+    }
+    if constexpr (FAM == CHAIN && VINE) { if (had_swap) { r.count("probe.chain_insert_after_swap"); if (r.kf("C06-KF6")) { obs.tainted = true; r.skipped(); return; } } }
     int c = can[op.arg(0) % can.size()];
     bool custom = p.geti("custom_ids", 1) != 0 || !default_ids_ok;
-    int id = custom ? next_id + (int)(op.arg(1) % 3) * (int)p.geti("id_gaps", 1) : F.size();
+    // identifiers must stay strictly above every identifier in use (for boundary-type matrices: every row identifier, which stay with the positions)
+    int base = 0; for (auto& c : F.cells) base = std::max(base, c.id + 1); for (int x : rowids) base = std::max(base, x + 1);
+    if (!p.geti("reuse_ids", 0)) base = std::max(base, next_id);  // otherwise the identifier of a removed last cell may be used again
+    int id = custom ? base + (int)(op.arg(1) % 3) * (int)p.geti("id_gaps", 1) : F.size();
     Filt_cell fc; fc.pool = c; fc.id = id; fc.dim = pool.cells[c].dim;
     for (auto& f : pool.cells[c].bd) fc.bd.push_back({F.id_of_pool(f.first), coeff(c, f.first, f.second)});
     std::sort(fc.bd.begin(), fc.bd.end());
     bool give_dim = op.arg(2) % 2 == 0;  // the dimension may be omitted for simplicial cells
     int dim = give_dim ? fc.dim : -1;
-    if constexpr (Z2) { std::vector<unsigned> b; for (auto& f : fc.bd) b.push_back((unsigned)f.first); if (custom) mp->insert_boundary((unsigned)id, b, dim); else mp->insert_boundary(b, dim); }
-    else { std::vector<std::pair<unsigned, unsigned>> b; for (auto& f : fc.bd) b.push_back({(unsigned)f.first, f.second}); if (custom) mp->insert_boundary((unsigned)id, b, dim); else mp->insert_boundary(b, dim); }
-    F.cells.push_back(fc); next_id = id + 1; if (custom) default_ids_ok = false;
+    // what the API gets: faces designated by their current row index (for boundary-type matrices the row identifiers stay with the
+    // positions under vine swaps, so a face is designated by the identifier of the position it now occupies; for chains by its own identifier)
+    std::vector<std::pair<int, unsigned>> api_bd;
+    for (auto& f : fc.bd) api_bd.push_back({(int)row_of_pos(F.pos_of_id(f.first)), f.second});
+    std::sort(api_bd.begin(), api_bd.end());
+    if constexpr (Z2) { std::vector<unsigned> b; for (auto& f : api_bd) b.push_back((unsigned)f.first); if (custom) mp->insert_boundary((unsigned)id, b, dim); else mp->insert_boundary(b, dim); }
+    else { std::vector<std::pair<unsigned, unsigned>> b; for (auto& f : api_bd) b.push_back({(unsigned)f.first, f.second}); if (custom) mp->insert_boundary((unsigned)id, b, dim); else mp->insert_boundary(b, dim); }
+    if (had_swap) inserted_after_swap = true;
+    F.cells.push_back(fc); rowids.push_back(id); next_id = id + 1; if (custom) default_ids_ok = false;
     r.mutated = true;
   }
   void do_remove_last() {
     if constexpr (CAN_REMOVE_LAST) {
       if (F.size() == 0) { r.skipped(); return; }
+      if constexpr (FAM == RU && VINE && MAPC && ROWS) { r.count("probe.ru_map_rows_removal"); if (r.kf("C06-KF5")) { obs.tainted = true; r.skipped(); return; } }
+      if constexpr (FAM == RU && VINE && !MAPC) { if (had_swap) { r.count("probe.ru_vector_removal_after_swap"); if (r.kf("C06-KF11")) { obs.tainted = true; r.skipped(); return; } } }
+      if constexpr (FAM == RU && VINE && MAPC && !BARCODE) { if (had_swap) { r.count("probe.ru_map_nobarcode_removal_after_swap"); if (r.kf("C06-KF12")) { obs.tainted = true; r.skipped(); return; } } }
+      if constexpr (FAM == RU && VINE) {
+        // C06-KF2 also covers removals: erase_empty_row is called with the position while the maps are keyed by row identifier
+        bool ids_are_positions = true; for (int k = 0; k < F.size(); ++k) if (rowids[k] != k) ids_are_positions = false;
+        if (!ids_are_positions) { r.count("probe.ru_remove_with_custom_ids"); if (r.kf("C06-KF2")) { obs.tainted = true; r.skipped(); return; } }
+      }
+      if constexpr (FAM == CHAIN && VINE) {
+        // known finding C06-KF7: chain remove_last after a vine swap leaves the position bookkeeping inconsistent for later insertions
+        if (had_swap) { r.count("probe.chain_remove_last_after_swap"); if (r.kf("C06-KF7")) { obs.tainted = true; r.skipped(); return; } }
+      }
       mp->remove_last();
-      int id = F.cells.back().id; F.cells.pop_back(); default_ids_ok = false;
-      if (p.geti("reuse_ids", 0)) next_id = id;  // the removed identifier may be used again
+      int id = F.cells.back().id; F.cells.pop_back(); rowids.pop_back(); default_ids_ok = false; had_removal = true;
+      (void)id;
       r.mutated = true; r.count("probe.remove_last");
     } else r.skipped();
   }
 
   void run() {
     bool reserve = p.geti("reserve", 1) != 0;
-    if (reserve) mp.reset(new M(32, P)); else { mp.reset(new M()); if constexpr (!Z2) mp->set_characteristic(P); }
+    if constexpr (FAM == CHAIN && VINE && !BARCODE) {
+      // seam S8: without a stored barcode the matrix asks the caller to compare births / deaths of the bars of two positions
+      auto bar_of = [this](unsigned pos) { for (auto& b : F.barcode()) if (b.birth == (int)pos || b.death == (int)pos) return b; return Bar{-1, -1, -1}; };
+      std::function<bool(unsigned, unsigned)> birth_cmp = [this, bar_of](unsigned a, unsigned b) { r.count("probe.comparator_calls"); return bar_of(a).birth < bar_of(b).birth; };
+      std::function<bool(unsigned, unsigned)> death_cmp = [this, bar_of](unsigned a, unsigned b) { r.count("probe.comparator_calls"); auto x = bar_of(a).death, y = bar_of(b).death; if (x < 0) return false; if (y < 0) return true; return x < y; };
+      mp.reset(new M(reserve ? 32u : 0u, birth_cmp, death_cmp, P));
+    } else {
+      if (reserve) mp.reset(new M(32, P)); else { mp.reset(new M()); if constexpr (!Z2) mp->set_characteristic(P); }
+    }
     bool modified_since_barcode = false;
     for (size_t i = 0; i < p.ops.size(); ++i) {
       const sim::Op& op = p.ops[i];
       r.begin_op((int)i, op);
       const std::string& nm = op.name;
+      if constexpr (FAM == RU && VINE && Z2 && Opt::column_type == Column_types::VECTOR) { if (had_removal && r.kf("C06-KF9")) { obs.tainted = true; r.skipped(); continue; } }
       if (nm == "ins") { do_insert(op); modified_since_barcode = true; }
       else if (nm == "rm_last") { do_remove_last(); modified_since_barcode = true; }
       else if (nm == "audit") {
@@ -323,7 +389,116 @@ struct Exec {
     }
     (void)modified_since_barcode;
   }
-  bool vine_op(const sim::Op&) { return false; }
+  // ---------------------------------------------------------------- vineyard operations (C06)
+  static std::vector<Bar> exchanged(std::vector<Bar> b, int i) {
+    for (auto& x : b) { if (x.birth == i) x.birth = i + 1; else if (x.birth == i + 1) x.birth = i; if (x.death == i) x.death = i + 1; else if (x.death == i + 1) x.death = i; }
+    std::sort(b.begin(), b.end()); return b;
+  }
+  bool vine_op(const sim::Op& op) {
+    if constexpr (!VINE) { (void)op; return false; }
+    else {
+      const int n = F.size();
+      if (op.name == "swap" || op.name == "swap_z1") {
+        std::vector<int> adm; for (int i = 0; i + 1 < n; ++i) if (!F.is_face(i, i + 1)) adm.push_back(i);
+        if (adm.empty()) { r.skipped(); return true; }
+        if constexpr (FAM == RU) {
+          // known finding C06-KF2: RU vine swaps mix row identifiers and positions (rows of U, pivot table) when they differ
+          bool ids_are_positions = true; for (int k = 0; k < n; ++k) if (rowids[k] != k) ids_are_positions = false;
+          if (!ids_are_positions) { r.count("probe.ru_swap_with_custom_ids"); if (r.kf("C06-KF2")) { obs.tainted = true; r.skipped(); return true; } }
+        }
+        if constexpr (FAM == RU && !BARCODE) {
+          // known finding C06-KF12: without stored barcode the RU matrix throws from its pivot table during swaps
+          r.count("probe.ru_map_nobarcode_swap"); if (r.kf("C06-KF12")) { obs.tainted = true; r.skipped(); return true; }
+        }
+        if constexpr (FAM == CHAIN && !BARCODE) {
+          // known finding C06-KF10: the user comparators are documented to receive positions but are called with column indices
+          r.count("probe.chain_swap_with_comparators"); if (r.kf("C06-KF10")) { obs.tainted = true; r.skipped(); return true; }
+        }
+        int i = adm[op.arg(0) % adm.size()];
+        if (op.arg(1) % 3 == 0 && std::find(adm.begin(), adm.end(), last_swap) != adm.end()) i = last_swap;  // revisit the same pair
+        bool z1 = op.name == "swap_z1";
+        auto before = F.barcode(); auto exch = exchanged(before, i);
+        // position-indexed API (returns whether the barcode changed) or index-pair API (returns the index of the cell now at the larger position)
+        constexpr bool BY_POS = (FAM != CHAIN && IDX != 2) || (FAM == CHAIN && IDX == 1);
+        unsigned ci = col_of_pos(i), cj = col_of_pos(i + 1);
+        if (z1) {
+          // precondition of the z = 1 shortcut: the swap is not a plain transposition
+          bool ok = F.cells[i].dim == F.cells[i + 1].dim;
+          if constexpr (FAM != CHAIN) {
+            if constexpr (IDX == 2) ok = false;
+            else {
+              bool ids_are_positions = true; for (int k = 0; k < n; ++k) if (rowids[k] != k) ids_are_positions = false;
+              if (!ids_are_positions) ok = false;
+              else if (ok) { bool ip = mp->is_zero_column(ci), jp = mp->is_zero_column(cj); if (!(ip && jp)) ok = !mp->is_zero_entry(ci, (unsigned)(i + 1), false); }
+            }
+          } else { if (ok) ok = !mp->is_zero_entry(cj, (unsigned)F.cells[i].id); }
+          if (!ok) { r.skipped(); return true; }
+          r.count("probe.swap_z_eq_1");
+        }
+        bool ret_bool = false; unsigned ret_idx = 0;
+        if constexpr (BY_POS) ret_bool = z1 ? mp->vine_swap_with_z_eq_1_case((unsigned)i) : mp->vine_swap((unsigned)i);
+        else ret_idx = z1 ? mp->vine_swap_with_z_eq_1_case(ci, cj) : mp->vine_swap(ci, cj);
+        std::swap(F.cells[i], F.cells[i + 1]);
+        last_swap = i; had_swap = true; r.mutated = true;
+        auto after = F.barcode();
+        r.count(after == exch ? (after == before ? "probe.swap_degenerate" : "probe.swap_bars_follow_cells") : "probe.swap_bars_exchanged");
+        if constexpr (BARCODE) { auto got = read_barcode(); PH_REQ(got == after, "barcode", "after the transposition of positions " + std::to_string(i) + "," + std::to_string(i + 1) + ": barcode " + bars_str(got) + "rebuilt from scratch " + bars_str(after)); }
+        if constexpr (BY_POS) {
+          // truthfulness of the returned value against the rebuilt barcode
+          bool claim_ok = ret_bool ? (after == exch) : (after == before);
+          if constexpr (FAM == CHAIN) { if (!claim_ok && inserted_after_swap) { r.count("probe.chain_untruthful_after_insertion"); if (r.kf("C06-KF8")) claim_ok = true; } }
+          PH_REQ(claim_ok, "truth", std::string("vine_swap returned ") + (ret_bool ? "true" : "false") + " but the barcode went from " + bars_str(before) + "to " + bars_str(after) + "(positions " + std::to_string(i) + "," + std::to_string(i + 1) + ")");
+          r.log((uint64_t)ret_bool);
+        } else {
+          unsigned cell_id;
+          if constexpr (FAM == CHAIN && IDX == 0) cell_id = mp->get_pivot(ret_idx); else cell_id = ret_idx;
+          if constexpr (FAM == RU && IDX == 2) {
+            // known finding C06-KF1: with identifier indexing the RU overlay answers with the other cell when the barcode did not change
+            if ((int)cell_id == F.cells[i].id && after == before) { r.count("probe.ru_id_swap_return_other_cell"); if (r.kf("C06-KF1")) return true; }
+          }
+          PH_REQ((int)cell_id == F.cells[i + 1].id, "truth", "vine_swap returned index " + std::to_string(ret_idx) + " (cell " + std::to_string(cell_id) + ") but the cell now at the larger position is " + std::to_string(F.cells[i + 1].id));
+        }
+        return true;
+      }
+      if (op.name == "rm_max") {
+        std::vector<int> cand; for (int k = 0; k < n; ++k) if (!F.has_coface(k)) cand.push_back(k);
+        if (cand.empty()) { r.skipped(); return true; }
+        if constexpr (FAM == RU) {
+          bool ids_are_positions = true; for (int q = 0; q < n; ++q) if (rowids[q] != q) ids_are_positions = false;
+          if (!ids_are_positions && r.kf("C06-KF2")) { obs.tainted = true; r.skipped(); return true; }
+        }
+        int k = cand[op.arg(0) % cand.size()];
+        if (op.arg(1) % 2 == 0 && last_swap >= 0 && last_swap + 1 < n && !F.has_coface(last_swap + 1)) k = last_swap + 1;  // right after a swap involving it
+        if constexpr (FAM == RU && VINE && !MAPC) { if (had_swap || k != n - 1) { r.count("probe.ru_vector_removal_after_swap"); if (r.kf("C06-KF11")) { obs.tainted = true; r.skipped(); return true; } } }
+        if constexpr (FAM == RU && VINE && MAPC && !BARCODE) { if (had_swap || k != n - 1) { r.count("probe.ru_map_nobarcode_remove_maximal"); if (r.kf("C06-KF12")) { obs.tainted = true; r.skipped(); return true; } } }
+        if constexpr (FAM == CHAIN) { if (had_swap || k != n - 1) { r.count("probe.chain_remove_maximal_after_swap"); if (r.kf("C06-KF7")) { obs.tainted = true; r.skipped(); return true; } } }
+        if constexpr (FAM == CHAIN && IDX == 1) {
+          // known finding C06-KF4: the position overlay does not follow the column exchanges done while the cell is moved to the end
+          if (k != n - 1) { r.count("probe.chain_pos_remove_inner"); if (r.kf("C06-KF4")) { obs.tainted = true; r.skipped(); return true; } }
+        }
+        if constexpr (FAM == RU && VINE && MAPC && ROWS) { r.count("probe.ru_map_rows_removal"); if (r.kf("C06-KF5")) { obs.tainted = true; r.skipped(); return true; } }
+        bool done = false;
+        if (k != n - 1) had_swap = true;  // moving the cell to the end is done with vine swaps
+        if constexpr (FAM != CHAIN) { mp->remove_maximal_cell(col_of_pos(k)); done = true; }
+        else if constexpr (MAPC) {
+          if constexpr (IDX == 1) { if constexpr (BARCODE) { mp->remove_maximal_cell((unsigned)k); done = true; } }
+          else {
+            bool with_hint = op.arg(2) % 2 == 0 || !BARCODE;
+            if (with_hint) { std::vector<unsigned> later; for (int j = k + 1; j < n; ++j) later.push_back((unsigned)F.cells[j].id); mp->remove_maximal_cell((unsigned)F.cells[k].id, later); done = true; r.count("probe.remove_maximal_with_hint"); }
+            else if constexpr (BARCODE) { mp->remove_maximal_cell((unsigned)F.cells[k].id); done = true; }
+          }
+        }
+        if (!done) { r.skipped(); return true; }
+        F.cells.erase(F.cells.begin() + k); if (!rowids.empty()) rowids.pop_back();  // the row identifiers stay with the positions: the last one goes
+        default_ids_ok = false; had_removal = true; last_swap = -1; r.mutated = true;
+        r.count(k == n - 1 ? "probe.remove_maximal_last" : "probe.remove_maximal_inner");
+        if constexpr (BARCODE) { auto got = read_barcode(); auto exp = F.barcode(); PH_REQ(got == exp, "barcode", "after remove_maximal_cell: barcode " + bars_str(got) + "rebuilt from scratch " + bars_str(exp)); }
+        return true;
+      }
+      return false;
+    }
+  }
+  int last_swap = -1; bool had_swap = false, inserted_after_swap = false;
 #undef PH_REQ
 };
 
